@@ -46,7 +46,7 @@ public:
 
     void finish() {
         for (ndsize_t i = 0; i < nelms; i++) {
-            data[i] = buffer[i];
+            data[i] = buffer[i] != nullptr ? buffer[i] : "";
         }
     }
 
